@@ -94,13 +94,19 @@ def Res.isOkVal (r : Res (Val × Bytes)) (v : Val) (rest : Bytes) : Bool :=
 
 /-! ### Generic `<TAG><LENGTH><DATA>` triple (`ZvtSerializerImpl` default methods) -/
 
+/-- the encoded tag in front of a field (nothing for an untagged field). -/
+def tagPrefix (tagEnc : Nat → Bytes) (tag : Option Nat) : Bytes :=
+  match tag with
+  | none => []
+  | some t => tagEnc t
+
 def serTagged (tagEnc : Nat → Bytes) (L : LenKind) (tag : Option Nat) (payload : Res Bytes) : Res Bytes :=
   match payload with
   | .error e => .error e
   | .ok p =>
     match L.ser p.length with
     | .error e => .error e
-    | .ok l => .ok ((match tag with | none => [] | some t => tagEnc t) ++ l ++ p)
+    | .ok l => .ok (tagPrefix tagEnc tag ++ l ++ p)
 
 def stripTag (tagDec : Bytes → Res (Nat × Bytes)) (tag : Option Nat) (bytes : Bytes) : Res Bytes :=
   match tag with
